@@ -423,6 +423,30 @@ for _pid in ("C11", "C07"):
     CHECKS[_pid]["rule"] += PURE_RULE
 
 
+
+# ---- sequential repository properties: what lets their theorems speak about concurrent use is that every method is ONE
+# critical section (C10's atomic-section argument). That structural fact is re-extracted from the sources for them too,
+# and the deterministic-window family `memconc` runs where a torn call can leave a stored task the property forbids.
+LOCK_RULE = ("`gkh srcfacts -facts lock` re-extracts from the current sources (go/ast) that every method of the in-memory "
+             "repository, the hook timer and the cron store takes its mutex first, releases it only by `defer` and never "
+             "explicitly, so that a call is one atomic step - the assumption under which the sequential theorems of this "
+             "property hold for concurrent callers (a broken fact is a DIFF: reported, a failing history searched); ")
+
+
+def _with_lockfacts(cfg, memconc=False):
+    runs = cfg["runs"]
+    extra = [{"args": ["srcfacts", "-facts", "lock"]}]
+    cfg["runs"] = (lambda tier, _r=runs: _r(tier) + extra + ([memconc_run(tier)] if memconc else []))
+    cfg["components"] = cfg["components"] + ["srcfacts-lock"]
+    cfg["rule"] = LOCK_RULE + (MEMCONC_RULE if memconc else "") + cfg["rule"]
+    if memconc:
+        cfg.setdefault("extra_mon", {})["C10"] = r"."
+
+
+for _p in ("C01", "C02", "C11", "C14"):
+    _with_lockfacts(CHECKS[_p])
+_with_lockfacts(CHECKS["C12"], memconc=True)
+
 # ---- properties whose decision logic is also tied by translation (gkh golean + tie theorems)
 def _with_golean(cfg):
     runs = cfg["runs"]
